@@ -4,11 +4,13 @@ import json
 import os
 import random
 import subprocess
+import tempfile
 from concurrent.futures import ThreadPoolExecutor
 
 import driver
 import enc
 import framework
+import gen
 
 PID = 'C16'
 SOURCES = ['SoupVerif/Properties/C16.lean', 'SoupVerif/Model/Imports.lean', 'SoupVerif/Lemmas/Imports.lean', 'SoupVerif/Generated/Imports.lean']
@@ -18,7 +20,19 @@ RULE = ('every sequence of import statements of length <= k (exhaustive) over th
         'BeautifulSoup(markup, parser).select(selector) and soupsieve.select on the same markup: exit status 0, empty stdout and '
         'stderr apart from the result line, and the two results equal and equal across sequences (the property itself); the Lean '
         'import model (event lists regenerated from the sources of soupsieve and the installed bs4) must predict the same '
-        'outcome for each sequence. Non-trivial = the sequence starts with a bs4 statement or mixes both packages.')
+        'outcome for each sequence. Non-trivial = the sequence starts with a bs4 statement or mixes both packages. '
+        'PROGRAMS AFTER THE IMPORTS: the same generated list of programs (markup x parser x edits made through the Beautiful '
+        'Soup API x queries) is run in a fresh interpreter after every import sequence of length <= 2 and after further import '
+        'forms (submodules, from-imports, aliases, importlib), through Beautiful Soup (select / select_one / css.match / closest '
+        '/ filter / iselect / precompiled) and through soupsieve; every answer (matched elements, or the exception type) and '
+        'every warning category must be the same whichever import came first, and the two paths must agree. The programs cover '
+        'attribute values ASSIGNED through the API (list / tuple / AttributeValueList / list subclass / deque / range / '
+        'bytearray holding int, float, bytes, None, bool, nested lists, str subclasses, string nodes, arbitrary objects; '
+        'scalars of those types; replaced attrs mappings; NamespacedAttribute keys) on class, id, rel, lang, dir, type, value, '
+        'min/max, content, ... with selectors aimed at their string form; string nodes of every Beautiful Soup class and of '
+        'user subclasses inserted in elements and at document level (:empty, :-soup-contains, :dir, :root, ...); tags made by '
+        'new_tag / Tag() / a Tag subclass, with namespaces; nested BeautifulSoup objects; detached subtrees; copies; and random '
+        'documents with random edits and selectors.')
 
 ENTRY = ['import bs4', 'from bs4 import BeautifulSoup', 'import bs4.element', 'import soupsieve', 'import soupsieve.css_match',
          'import soupsieve.css_parser', 'import soupsieve.css_types', 'from soupsieve import *']
@@ -41,6 +55,774 @@ def run_seq(seq):
     lines = [l for l in out.splitlines() if l.strip()]
     return {'seq': list(seq), 'rc': p.returncode, 'stdout_extra': [l for l in lines if not l.startswith('RESULT')],
             'result': next((l for l in lines if l.startswith('RESULT')), None), 'stderr': p.stderr.decode()[-400:]}
+
+
+# ---------------------------------------------------------------------------------------------------------------------
+# Programs run AFTER the imports.  The property is about what a program computes once the packages are imported, so the
+# per-import-order comparison is made over a generated list of programs, not over one fixed probe: whatever soupsieve
+# binds, caches or fails to find at import time (Beautiful Soup's classes for tags, documents, string nodes, attribute
+# value containers, ...) can only show on documents that contain such objects, and many of them are only reachable by
+# building or editing the tree through the Beautiful Soup API.
+# A program = {'m': markup, 'p': parser, 'e': [edits], 'q': [(api, selector)], 'scope': target, 'el': target, 'ns', 'limit',
+# 'flags'}; targets are None (the document), ['id', x] or ['n', k] (k-th tag); values are tagged trees (see _mk in WORK).
+# ---------------------------------------------------------------------------------------------------------------------
+WORK = r'''
+import collections as _collections
+import copy as _copy
+import json as _json
+import sys as _sys
+import warnings as _warnings
+import bs4
+import soupsieve
+import bs4.element as _E
+from bs4 import BeautifulSoup as _BS
+
+
+class _UText(_E.NavigableString):
+    pass
+
+
+class _UComment(_E.Comment):
+    pass
+
+
+class _UCData(_E.CData):
+    pass
+
+
+class _UPI(_E.ProcessingInstruction):
+    pass
+
+
+class _UDoctype(_E.Doctype):
+    pass
+
+
+class _UDeclaration(_E.Declaration):
+    pass
+
+
+class _UTag(bs4.Tag):
+    pass
+
+
+class _USoup(_BS):
+    pass
+
+
+class _StrSub(str):
+    pass
+
+
+class _ListSub(list):
+    pass
+
+
+class _Obj:
+    def __init__(self, s):
+        self.s = s
+
+    def __str__(self):
+        return self.s
+
+
+_STR = {'UText': _UText, 'UComment': _UComment, 'UCData': _UCData, 'UPI': _UPI, 'UDoctype': _UDoctype, 'UDeclaration': _UDeclaration}
+for _n in ('NavigableString', 'Comment', 'CData', 'ProcessingInstruction', 'XMLProcessingInstruction', 'Doctype', 'Declaration',
+           'TemplateString', 'Script', 'Stylesheet', 'RubyTextString', 'RubyParenthesisString', 'PreformattedString'):
+    if hasattr(_E, _n):
+        _STR[_n] = getattr(_E, _n)
+_DICTS = {'dict': dict, 'OrderedDict': _collections.OrderedDict}
+for _n in ('AttributeDict', 'HTMLAttributeDict', 'XMLAttributeDict'):
+    if hasattr(_E, _n):
+        _DICTS[_n] = getattr(_E, _n)
+
+
+def _mk(v):
+    t, x = v
+    if t in ('s', 'i', 'f'):
+        return x
+    if t == 'b':
+        return bytes.fromhex(x)
+    if t == 'ba':
+        return bytearray(bytes.fromhex(x))
+    if t == 'n':
+        return None
+    if t == 'B':
+        return bool(x)
+    if t == 'list':
+        return [_mk(y) for y in x]
+    if t == 'tuple':
+        return tuple(_mk(y) for y in x)
+    if t == 'avl':
+        return getattr(_E, 'AttributeValueList', list)(_mk(y) for y in x)
+    if t == 'listsub':
+        return _ListSub(_mk(y) for y in x)
+    if t == 'deque':
+        return _collections.deque(_mk(y) for y in x)
+    if t == 'range':
+        return range(x)
+    if t == 'strsub':
+        return _StrSub(x)
+    if t == 'obj':
+        return _Obj(x)
+    if t == 'cmav':
+        return getattr(_E, 'CharsetMetaAttributeValue', _StrSub)(x)
+    if t in _STR:                           # a string NODE class used as an attribute value
+        return _STR[t](x)
+    raise ValueError(t)
+
+
+def _tags(soup):
+    return [x for x in soup.descendants if isinstance(x, bs4.Tag)]
+
+
+def _find(soup, t):
+    if t is None:
+        return soup
+    if t[0] == 'id':
+        for x in _tags(soup):
+            if x.attrs.get('id') == t[1]:
+                return x
+        return None
+    tags = _tags(soup)
+    return tags[t[1] % len(tags)] if tags else None
+
+
+def _place(el, node, where):
+    if where == 'append':
+        el.append(node)
+    elif where == 'insert0':
+        el.insert(0, node)
+    elif where == 'before':
+        el.insert_before(node)
+    elif where == 'after':
+        el.insert_after(node)
+    else:
+        el.replace_with(node)
+
+
+def _apply(soup, ed):
+    """One edit through the Beautiful Soup API.  Returns (soup, detached element or None)."""
+    op = ed[0]
+    if op == 'copy':
+        return _copy.copy(soup), None
+    if op == 'deepcopy':
+        return _copy.deepcopy(soup), None
+    if op == 'smooth':
+        soup.smooth()
+        return soup, None
+    el = _find(soup, ed[1])
+    if el is None:
+        return soup, None
+    if op == 'attr':
+        el[ed[2]] = _mk(ed[3])
+    elif op == 'attrs':
+        el.attrs = _DICTS.get(ed[2], dict)((k, _mk(v)) for k, v in ed[3])
+    elif op == 'nsattr':
+        el[_E.NamespacedAttribute(ed[2], ed[3], ed[4])] = _mk(ed[5])
+    elif op == 'delattr':
+        if ed[2] in el.attrs:
+            del el[ed[2]]
+    elif op == 'str':
+        _place(el, _STR[ed[2]](ed[3]), ed[4])
+    elif op == 'tag':
+        kind, name, prefix, ns, attrs, text, where = ed[2:9]
+        attrs = dict((k, _mk(v)) for k, v in attrs)
+        if kind == 'new_tag':
+            node = soup.new_tag(name, namespace=ns, nsprefix=prefix, attrs=attrs)
+        elif kind == 'Tag':
+            node = bs4.Tag(None, None, name, ns, prefix, attrs)
+        elif kind == 'TagB':
+            node = bs4.Tag(None, soup.builder, name, ns, prefix, attrs)
+        else:
+            node = _UTag(None, soup.builder, name, ns, prefix, attrs)
+        if text is not None:
+            node.append(text)
+        _place(el, node, where)
+    elif op == 'soup':
+        cls = _USoup if ed[4] == 'USoup' else _BS
+        _place(el, cls(ed[2], ed[3]), ed[5])
+    elif op == 'detach':
+        return soup, el.extract()
+    elif op == 'extract':
+        el.extract()
+    elif op == 'decompose':
+        el.decompose()
+    elif op == 'unwrap':
+        el.unwrap()
+    elif op == 'clear':
+        el.clear()
+    elif op == 'string':
+        el.string = ed[2]
+    elif op == 'wrap':
+        el.wrap(soup.new_tag(ed[2]))
+    elif op == 'name':
+        el.name = ed[2]
+    else:
+        raise ValueError(op)
+    return soup, None
+
+
+def _sig(el):
+    if el is None:
+        return None
+    path = []
+    x = el
+    while getattr(x, 'parent', None) is not None:
+        p = x.parent
+        path.append(next((i for i, c in enumerate(p.contents) if c is x), -1))
+        x = p
+    return str(getattr(el, 'name', None)) + '@' + '.'.join(map(str, reversed(path)))
+
+
+def _sigs(els):
+    return [_sig(e) for e in els]
+
+
+def _call(how, api, scope, sel, ns, limit, flags):
+    sv = soupsieve
+    if how == 'bs4':
+        if api == 'select':
+            return _sigs(scope.select(sel, namespaces=ns, limit=limit, flags=flags))
+        if api == 'select_one':
+            return _sig(scope.select_one(sel, namespaces=ns, flags=flags))
+        if api == 'match':
+            return bool(scope.css.match(sel, ns, flags))
+        if api == 'closest':
+            return _sig(scope.css.closest(sel, ns, flags))
+        if api == 'filter':
+            return _sigs(scope.css.filter(sel, ns, flags))
+        if api == 'iselect':
+            return _sigs(scope.css.iselect(sel, ns, limit, flags))
+        if api == 'compiled':
+            return _sigs(scope.select(sv.compile(sel, ns, flags), limit=limit))
+        if api == 'css_compile':
+            return _sigs(scope.css.compile(sel, ns, flags).select(scope, limit))
+    else:
+        if api == 'select':
+            return _sigs(sv.select(sel, scope, namespaces=ns, limit=limit, flags=flags))
+        if api == 'select_one':
+            return _sig(sv.select_one(sel, scope, namespaces=ns, flags=flags))
+        if api == 'match':
+            return bool(sv.match(sel, scope, ns, flags))
+        if api == 'closest':
+            return _sig(sv.closest(sel, scope, ns, flags))
+        if api == 'filter':
+            return _sigs(sv.filter(sel, scope, ns, flags))
+        if api == 'iselect':
+            return _sigs(sv.iselect(sel, scope, ns, limit, flags))
+        if api in ('compiled', 'css_compile'):
+            return _sigs(sv.compile(sel, ns, flags).select(scope, limit))
+    raise ValueError(api)
+
+
+def _run_case(case):
+    """[answers through Beautiful Soup, answers through soupsieve] on ONE tree built by the parser and the edits."""
+    notes = []
+    answers = {'bs4': [], 'soupsieve': []}
+    try:
+        with _warnings.catch_warnings(record=True) as wlog:
+            _warnings.simplefilter('always')
+            soup = _BS(case['m'], case['p'])
+            detached = None
+            el0 = _find(soup, case['el']) if case.get('el') else None       # the element the edits are about, found before they change it
+            for ed in case['e']:
+                try:
+                    soup, d = _apply(soup, ed)
+                    detached = d if d is not None else detached
+                except Exception as e:
+                    notes.append('edit ' + ed[0] + ' raised ' + type(e).__name__)
+            scope = detached if detached is not None else _find(soup, case.get('scope'))
+            if scope is None:
+                scope = soup
+            el = detached if detached is not None else (_find(soup, case['el']) if case.get('el') else None)
+            if el is None:
+                el = el0 if el0 is not None else scope
+            for api, sel in case['q']:
+                for how in ('bs4', 'soupsieve'):
+                    n = len(wlog)
+                    try:
+                        a = _call(how, api, el if api in ('match', 'closest', 'filter') else scope, sel, case.get('ns'),
+                                  case.get('limit', 0), case.get('flags', 0))
+                    except Exception as e:
+                        a = 'raised ' + type(e).__name__
+                    if len(wlog) > n:
+                        a = [a] + sorted(set('warning ' + w.category.__name__ for w in wlog[n:]))
+                    answers[how].append(a)
+        notes.extend(sorted(set('warning ' + w.category.__name__ for w in wlog)))
+    except Exception as e:
+        notes.append('case raised ' + type(e).__name__)
+    return [{'a': answers['bs4'], 'n': notes}, {'a': answers['soupsieve'], 'n': notes}]
+
+
+with open(_sys.argv[1]) as _f:
+    _cases = _json.load(_f)
+_sys.stdout.write('WORK ' + _json.dumps([_run_case(c) for c in _cases]) + '\n')
+'''
+
+EXTRA_BS4 = ['import bs4.css', 'from bs4.element import Tag, NavigableString', 'from bs4 import *', 'import bs4.builder',
+             'from bs4.css import CSS', 'import bs4 as b', '__import__("bs4")',
+             'import importlib; importlib.import_module("bs4.element")', 'import bs4.builder._lxml', 'import bs4.builder._html5lib',
+             'import bs4.builder._htmlparser', 'import bs4.dammit', 'import bs4.formatter', 'import bs4.filter',
+             'import bs4.diagnose', 'from bs4 import BeautifulSoup, Tag, Comment']
+EXTRA_SV = ['import soupsieve as sv', 'from soupsieve import css_match', 'import soupsieve.util', 'import soupsieve.pretty',
+            'import soupsieve.__meta__', 'from soupsieve.css_match import SoupSieve', 'from soupsieve import select, compile',
+            'import importlib; importlib.import_module("soupsieve")', 'import soupsieve.css_match as cm',
+            'from soupsieve import css_parser, css_types', 'from soupsieve.css_parser import CSSParser',
+            'from soupsieve.util import lower', '__import__("soupsieve.css_match")']
+PARSERS = ['html.parser', 'lxml', 'html5lib', 'xml']
+STRING_NODES = ['NavigableString', 'Comment', 'CData', 'ProcessingInstruction', 'XMLProcessingInstruction', 'Doctype', 'Declaration',
+                'TemplateString', 'Script', 'Stylesheet', 'RubyTextString', 'RubyParenthesisString', 'PreformattedString',
+                'UText', 'UComment', 'UCData', 'UPI', 'UDoctype', 'UDeclaration']
+CONTAINERS = ['list', 'tuple', 'avl', 'listsub', 'deque']
+MEMBERS = [
+    [('i', 3), ('s', '4')], [('b', '78'), ('s', 'y')], [('s', 'a'), ('i', 7)], [('n', None), ('s', 'a')], [('f', 1.5), ('B', 1)],
+    [('s', 'a'), ('s', 'b')], [('list', [('i', 1), ('i', 2)]), ('s', 'z')], [], [('i', 7)], [('b', 'ff'), ('strsub', 'q')],
+    [('UText', 't'), ('Comment', 'c')], [('obj', 'o'), ('s', 'p')], [('tuple', [('s', 'u')]), ('i', 0)], [('s', 'A b'), ('B', 0)],
+]
+SCALARS = [('i', 3), ('f', 1.5), ('b', '7879'), ('b', 'ff78'), ('n', None), ('B', 1), ('strsub', 'a b'), ('NavigableString', 'a b'),
+           ('Comment', 'a'), ('obj', 'a b'), ('range', 3), ('ba', '7879'), ('cmav', 'utf-8'), ('s', 'a b'), ('UText', 'ltr')]
+ATTR_NAMES = ['data-n', 'class', 'rel', 'id', 'title', 'lang', 'type', 'dir', 'CLASS', 'headers']
+SEL_APIS = ['select', 'select', 'select_one', 'iselect', 'compiled', 'css_compile']
+EL_APIS = ['match', 'closest', 'filter']
+XLINK = 'http://www.w3.org/1999/xlink'
+SVG = 'http://www.w3.org/2000/svg'
+NSMAP = {'svg': SVG, 'x': 'urn:x', 'xlink': XLINK}
+
+
+def css_ident(s):
+    """`s` as a CSS identifier: everything but ASCII letters and `_` as a hexadecimal escape."""
+    return ''.join(ch if (ch.isascii() and ch.isalpha()) or ch == '_' else '\\%x ' % ord(ch) for ch in s)
+
+
+def css_view(v):
+    """What an attribute value assigned through the API should look like to a selector: a string, or a list of words.
+    Only used to AIM selectors at the value (so that answers are not all empty); the verdict never depends on it."""
+    t, x = v
+    if t == 'i':
+        return str(x)
+    if t == 'f':
+        return repr(x)
+    if t == 'b':
+        return bytes.fromhex(x).decode('utf8', 'replace')
+    if t == 'n':
+        return ''
+    if t == 'B':
+        return str(bool(x))
+    if t == 'range':
+        return [str(i) for i in range(x)]
+    if t == 'ba':
+        return [str(b) for b in bytes.fromhex(x)]
+    if t in CONTAINERS:
+        return [w if isinstance(w, str) else '(' + ', '.join(w) + ')' for w in map(css_view, x)]
+    return x
+
+
+def aimed_queries(r, attr, view, tag, limit=None):
+    """(api, selector) pairs about attribute `attr` whose value looks like `view`, on an element named `tag` (at most `limit`
+    selectors, chosen at random)."""
+    words = view if isinstance(view, list) else view.split()
+    whole = ' '.join(view) if isinstance(view, list) else view
+    a = attr
+    sels = [f'{tag}[{a}]', f'{tag}[{a}={gen.q(whole)}]', f'[{a}!={gen.q(whole)}]', f'[{a}={gen.q(whole.swapcase())} i]',
+            f':not([{a}={gen.q(whole)}])', f'[{a}*={gen.q(whole[1:-1] or whole)}]']
+    for w in words[:3]:
+        sels.append(f'[{a}~={gen.q(w)}]')
+    if words:
+        sels += [f'[{a}^={gen.q(words[0])}]', f'[{a}$={gen.q(words[-1])}]', f'[{a}|={gen.q(words[0])}]',
+                 f'{tag}:is([{a}~={gen.q(words[-1])}], [{a}={gen.q(words[-1])}])']
+    low = a.lower()
+    if low == 'class':
+        sels += ['.' + css_ident(w) for w in words if w]
+        sels += [''.join('.' + css_ident(w) for w in words if w) or '*', f'{tag}:not(.' + css_ident(words[0] if words and words[0] else 'a') + ')']
+    if low == 'id':
+        sels += ['#' + css_ident(w) for w in (words + [whole]) if w]
+    if low == 'lang':
+        sels += [f':lang({gen.q(w)})' for w in words[:2]] + [':lang("*")', f'{tag}:lang(en)']
+    if low == 'dir':
+        sels += [f'{tag}:dir(ltr)', f'{tag}:dir(rtl)']
+    if low == 'type':
+        sels += [':checked', ':indeterminate', ':default', ':enabled', ':read-write', ':required, :optional']
+    out = []
+    if limit is not None and len(sels) > limit:
+        keep = set(r.sample(range(len(sels)), limit))
+        sels = [s for i, s in enumerate(sels) if i in keep]
+    for s in sels:
+        out.append((r.choice(SEL_APIS), s))
+        if r.random() < 0.4:
+            out.append((r.choice(EL_APIS), s))
+    return out
+
+
+def base_doc(parser):
+    if parser == 'xml':
+        return ('<root xmlns:x="urn:x"><p id="p" class="a b">x</p><span id="s">y</span><input id="i" type="checkbox"/>'
+                '<a id="l" rel="nofollow noopener" href="#">z</a><x:e id="e">w</x:e></root>')
+    return ('<!DOCTYPE html><html><head><meta id="m" http-equiv="content-language" content="en"><title>t</title></head><body>'
+            '<div id="d"><p id="p" class="a b">x</p><span id="s">y</span><input id="i" type="checkbox">'
+            '<a id="l" rel="nofollow noopener" href="#">z</a></div></body></html>')
+
+
+def programs_values(r, full):
+    """Attribute values assigned through the API."""
+    out = []
+    k = 0
+    vals = [(c, m) for c in CONTAINERS for m in MEMBERS]
+    for c, m in vals:
+        v = (c, m)
+        names = ATTR_NAMES if full else [r.choice(['class', 'class', 'rel', 'CLASS', 'headers']), r.choice(['data-n', 'id', 'title', 'lang', 'type', 'dir'])]
+        for a in names:
+            k += 1
+            parser = PARSERS[k % 4] if not full else r.choice(PARSERS)
+            tgt, tag = (('i', 'input') if a == 'type' else ('s', 'span'))
+            out.append({'g': 'values', 'm': base_doc(parser), 'p': parser, 'e': [['attr', ['id', tgt], a, v]], 'el': ['id', tgt],
+                        'q': aimed_queries(r, a, css_view(v), tag, None if full else 8)})
+    for v in SCALARS:
+        for a in (ATTR_NAMES if full else r.sample(ATTR_NAMES, 2)):
+            k += 1
+            parser = PARSERS[k % 4]
+            tgt, tag = (('i', 'input') if a == 'type' else ('s', 'span'))
+            view = css_view(v)
+            out.append({'g': 'values', 'm': base_doc(parser), 'p': parser, 'e': [['attr', ['id', tgt], a, v]], 'el': ['id', tgt],
+                        'q': aimed_queries(r, a, view, tag, None if full else 8)})
+    # the whole attrs mapping replaced (plain dict / OrderedDict / the parser's own classes), and namespaced attribute names
+    for dk in ['dict', 'OrderedDict', 'AttributeDict', 'HTMLAttributeDict', 'XMLAttributeDict']:
+        k += 1
+        parser = PARSERS[k % 4]
+        v = (r.choice(CONTAINERS), r.choice(MEMBERS[:6]))
+        items = [['id', ('s', 's')], ['class', v], ['data-n', r.choice(SCALARS)]]
+        out.append({'g': 'values', 'm': base_doc(parser), 'p': parser, 'e': [['attrs', ['id', 's'], dk, items]],
+                    'q': aimed_queries(r, 'class', css_view(v), 'span', 8) + [('select', '#s'), ('select', '[data-n]')]})
+    for v in [(c, m) for c in ('list', 'avl', 'tuple') for m in MEMBERS[:4]] + SCALARS[:4]:
+        k += 1
+        parser = PARSERS[k % 4]
+        view = css_view(v)
+        words = view if isinstance(view, list) else view.split()
+        whole = ' '.join(words)
+        out.append({'g': 'values', 'm': base_doc(parser), 'p': parser, 'ns': NSMAP,
+                    'e': [['nsattr', ['id', 's'], 'xlink', 'href', XLINK, v]],
+                    'q': [('select', '[xlink|href]'), ('select', f'[xlink|href={gen.q(whole)}]'), ('select', f'[*|href~={gen.q(words[0] if words else "")}]'),
+                          ('select', f'span[xlink|href^={gen.q(whole[:1])}]'), ('select', ':any-link'), ('select', '[href]')]})
+    # values that HTML semantics read: content-language, input value / min / max, radio names, form owner
+    sem = [
+        ([['attr', ['id', 'm'], 'content', v]], ['p:lang(de)', 'p:lang(fr)', 'p:lang(en)', ':lang("*-DE")', ':root:lang(de)'])
+        for v in [('list', [('s', 'de')]), ('b', '6672'), ('strsub', 'de'), ('list', [('b', '6465'), ('i', 1)]), ('tuple', [('s', 'fr')]), ('UText', 'de-DE')]
+    ] + [
+        ([['attr', ['id', 'i'], 'type', ('s', 'number')], ['attr', ['id', 'i'], 'min', lo], ['attr', ['id', 'i'], 'max', hi], ['attr', ['id', 'i'], 'value', val]],
+         [':in-range', ':out-of-range', 'input:not(:in-range)', '[min][max]', f'[value={gen.q(css_view(val) if isinstance(css_view(val), str) else " ".join(css_view(val)))}]'])
+        for lo, hi, val in [(('i', 3), ('i', 9), ('i', 5)), (('list', [('i', 3)]), ('f', 9.5), ('b', '3132')), (('s', '3'), ('list', [('i', 9)]), ('list', [('i', 1), ('i', 2)])),
+                            (('f', 0.5), ('i', 1), ('tuple', [('i', 1)]))]
+    ] + [
+        ([['attr', ['id', 'i'], 'type', t], ['attr', ['id', 'i'], 'name', nm], ['attr', ['id', 'i'], 'checked', ck], ['attr', ['id', 'i'], 'dir', ('s', 'auto')], ['attr', ['id', 'i'], 'value', val]],
+         [':checked', ':indeterminate', ':default', 'input:dir(rtl)', 'input:dir(ltr)', '[name]', ':placeholder-shown', ':read-write', ':enabled'])
+        for t, nm, ck, val in [(('list', [('s', 'radio')]), ('list', [('i', 1)]), ('n', None), ('list', [('s', 'א')])),
+                               (('b', '726164696f'), ('i', 1), ('B', 0), ('b', 'd790')),
+                               (('strsub', 'text'), ('obj', 'n'), ('list', []), ('tuple', [('s', 'א'), ('i', 1)])),
+                               (('UText', 'checkbox'), ('s', 'n'), ('i', 0), ('i', 7))]
+    ]
+    for eds, sels in sem:
+        k += 1
+        parser = PARSERS[k % 3]
+        out.append({'g': 'values', 'm': base_doc(parser), 'p': parser, 'e': eds, 'q': [(r.choice(SEL_APIS), s) for s in sels]})
+    return out
+
+
+def programs_nodes(r, full):
+    """String nodes of every class inserted through the API, in elements and at document level."""
+    out = []
+    k = 0
+    html = ('<html><head></head><body><div id="d"><p id="p"></p><span id="s" dir="auto"></span><b id="b">tok</b><i id="e"> </i>'
+            '<textarea id="t" dir="auto" placeholder="h"></textarea></div></body></html>')
+    xml = '<root><p id="p"/><span id="s" dir="auto"/><b id="b">tok</b><i id="e"> </i></root>'
+    sels = ['p:empty', 'p:-soup-contains("zq")', 'p:-soup-contains-own("zq")', ':root:-soup-contains("zq")', '*:-soup-contains-own("zq")',
+            'span:dir(rtl)', 'span:dir(ltr)', ':dir(rtl)', 'p:first-child', 'b:nth-child(3)', ':root', 'i:empty', 'textarea:placeholder-shown',
+            'textarea:dir(rtl)', 'p:has(+ span)', 'span:not(:empty)', 'p:only-child, b:nth-last-child(2)']
+    for cls in STRING_NODES:
+        for parser in (PARSERS if full else [PARSERS[k % 4], PARSERS[(k + 1 + k // 4) % 4]]):
+            k += 1
+            eds = [['str', ['id', 'p'], cls, r.choice(['zq', ' ', 'a zq b']), r.choice(['append', 'insert0'])],
+                   ['str', ['id', 's'], cls, 'א', 'insert0'],
+                   ['str', ['id', 'b'], cls, 'zq', r.choice(['before', 'after'])]]
+            if parser != 'xml':
+                eds.append(['str', ['id', 't'], cls, r.choice(['', '\n', 'א']), 'append'])
+            if r.random() < 0.3:
+                eds.append(['smooth'])
+            out.append({'g': 'nodes', 'm': xml if parser == 'xml' else html, 'p': parser, 'e': eds, 'el': ['id', 'p'],
+                        'q': [(r.choice(SEL_APIS), s) for s in sels] + [(r.choice(EL_APIS), s) for s in r.sample(sels, 4)]})
+        # at document level: before / after / instead of the root element's siblings
+        k += 1
+        parser = PARSERS[k % 4]
+        eds = [['str', None, cls, r.choice(['zq', ' ']), r.choice(['append', 'insert0'])]]
+        if r.random() < 0.5:
+            eds.append(['str', None, cls, 'zq', 'append' if eds[0][4] == 'insert0' else 'insert0'])
+        out.append({'g': 'nodes', 'm': '<root id="r"><p id="p">zq</p></root>' if parser == 'xml' else '<div id="r"><p id="p">zq</p></div>', 'p': parser, 'e': eds,
+                    'el': ['id', 'r'], 'q': [(a, s) for s in [':root', ':root > p', '#r:root', ':root:-soup-contains("zq")', '#r:only-child', '#r:first-child, #r:last-child', 'p:-soup-contains-own("zq")']
+                                             for a in ('select', r.choice(EL_APIS))]})
+    return out
+
+
+def programs_tags(r, full):
+    """Elements and documents made through the API: new_tag, Tag(), a Tag subclass, namespaces, nested BeautifulSoup objects,
+    detached subtrees, copies, renamed / wrapped / unwrapped elements."""
+    out = []
+    k = 0
+    names = [('span', None, None), ('svg', 'svg', SVG), ('e', 'x', 'urn:x'), ('iframe', None, None), ('SPAN', None, None), ('input', None, None), ('e', None, 'urn:x')]
+    sels = ['span', 'svg|svg', 'x|e', '*|e', '|span', '*|*:last-child', 'p:has(> *)', 'p + *', ':root', '#n', '[data-n~="3"]', '.k', 'p:empty', 'iframe', 'p > :only-child',
+            ':-soup-contains("q")', ':enabled', '*:not(p):not(div)', ':is(span, SPAN, e):-soup-contains-own("q")']
+    for kind in ['new_tag', 'Tag', 'TagB', 'UTag']:
+        for name, prefix, ns in names:
+            for where in (['append', 'after', 'before', 'replace'] if full else [r.choice(['append', 'after', 'before', 'replace'])]):
+                k += 1
+                parser = PARSERS[k % 4]
+                attrs = [['id', ('s', 'n')], ['data-n', r.choice([('list', [('i', 3), ('s', '4')]), ('i', 3), ('avl', [('s', '3')]), ('tuple', [('b', '33')])])],
+                         ['class', r.choice([('list', [('s', 'k'), ('i', 7)]), ('s', 'k'), ('avl', [('s', 'k')]), ('strsub', 'k j')])]]
+                out.append({'g': 'tags', 'm': base_doc(parser), 'p': parser, 'ns': NSMAP, 'el': ['id', 'n'],
+                            'e': [['tag', ['id', 'p'], kind, name, prefix, ns, attrs, r.choice([None, 'q', '']), where]],
+                            'q': [(r.choice(SEL_APIS), s) for s in (sels if full else r.sample(sels, 12))] + [(r.choice(EL_APIS), s) for s in r.sample(sels, 4)]})
+    sels = ['em', 'p em', 'p > em', ':root', 'em:root', 'p:-soup-contains("q")', 'p:empty', 'em:only-child', 'em:first-child', '#n', 'p:has(em)', 'p > *', '[id]:not(:root)']
+    for inner_parser in PARSERS:
+        for cls in ('BS', 'USoup'):
+            k += 1
+            parser = PARSERS[k % 4]
+            out.append({'g': 'tags', 'm': base_doc(parser), 'p': parser, 'el': ['id', 'n'],
+                        'e': [['soup', ['id', 'p'], '<em id="n">q</em>', inner_parser, cls, r.choice(['append', 'insert0', 'after'])]],
+                        'q': [(r.choice(SEL_APIS), s) for s in sels] + [(r.choice(EL_APIS), s) for s in r.sample(sels, 5)]})
+    sels = [':root', 'p:first-child', 'p:nth-child(1)', 'p:only-child', 'p:last-of-type', ':scope', 'div p', 'p:not(div > p)', '* + p', ':root > p', 'p', 'p:empty',
+            ':scope > *', 'p:nth-last-child(1 of .a)', ':root:-soup-contains("x")', 'p:lang(en)', 'p:dir(ltr)', 'span:first-of-type', 'a:any-link', ':checked, :default']
+    for parser in PARSERS:
+        for tgt in ('p', 's', 'd', 'l', 'i'):
+            if parser == 'xml' and tgt == 'd':
+                continue
+            out.append({'g': 'tags', 'm': base_doc(parser), 'p': parser, 'e': [['detach', ['id', tgt]]] + ([['attr', ['id', tgt], 'class', ('list', [('s', 'a'), ('i', 1)])]] if r.random() < 0.3 else []),
+                        'q': [(a, s) for s in sels for a in ('match', r.choice(SEL_APIS + ['closest', 'filter']))]})
+    sels = ['p.a.b', 'div > span:last-child', 'a[rel~="noopener"]', '[class="a b"]', ':root #s', 'input:checked, input:indeterminate', 'x|e', 'p:-soup-contains("x")', ':root', 'p + span', 'em > p', 'section', 'q:empty']
+    for parser in PARSERS:
+        for eds in ([], [['copy']], [['deepcopy']], [['name', ['id', 'p'], 'section']], [['wrap', ['id', 'p'], 'em']], [['unwrap', ['id', 'p']]], [['clear', ['id', 'p']], ['name', ['id', 'p'], 'q']],
+                    [['string', ['id', 'p'], 'x']], [['extract', ['id', 's']]], [['decompose', ['id', 's']], ['copy']], [['delattr', ['id', 'p'], 'class']], [['name', ['id', 's'], 'iframe']]):
+            out.append({'g': 'tags', 'm': base_doc(parser), 'p': parser, 'ns': NSMAP, 'e': eds, 'el': ['id', 'p'], 'scope': r.choice([None, None, ['id', 'd']]),
+                        'q': [(r.choice(SEL_APIS), s) for s in sels] + [(r.choice(EL_APIS), s) for s in r.sample(sels, 4)]})
+    return out
+
+
+RANDOM_EXTRA = [':-soup-contains("a")', ':-soup-contains-own("a")', ':dir(ltr)', ':dir(rtl)', ':lang(en)', ':lang("*-US")', ':link', ':checked', ':defined', ':scope',
+                ':indeterminate', ':disabled', ':enabled', ':required', ':optional', ':read-write', ':read-only', ':placeholder-shown', ':default', ':in-range',
+                ':out-of-range', ':target', ':hover', ':playing']
+
+
+def random_value(r, depth=0):
+    x = r.random()
+    if x < 0.45 and depth < 2:
+        return (r.choice(CONTAINERS), [random_value(r, depth + 1) for _ in range(r.choice([0, 1, 1, 2, 2, 3]))])
+    return r.choice([('s', r.choice(gen.VALUES)), ('i', r.randint(-2, 12)), ('f', r.choice([0.5, 1.0, -2.25])), ('b', r.choice(['', '61', '6162', 'ff', 'e4b8ad'])),
+                     ('n', None), ('B', r.randint(0, 1)), ('strsub', r.choice(gen.VALUES)), ('obj', r.choice(gen.VALUES)), (r.choice(STRING_NODES), r.choice(gen.VALUES)),
+                     ('range', r.randint(0, 3)), ('ba', r.choice(['', '6162'])), ('s', r.choice(gen.CLASSES)), ('s', r.choice(gen.IDS))])
+
+
+def random_edit(r):
+    t = ['n', r.randint(0, 40)]
+    x = r.random()
+    if x < 0.45:
+        return ['attr', t, r.choice(ATTR_NAMES + gen.ATTRS + ['class', 'id']), random_value(r)]
+    if x < 0.65:
+        return ['str', r.choice([t, t, None]), r.choice(STRING_NODES), r.choice(gen.TEXTS + ['a', 'ab a']), r.choice(['append', 'insert0', 'before', 'after', 'replace'])]
+    if x < 0.78:
+        name, prefix, ns = r.choice([('span', None, None), ('svg', 'svg', SVG), ('li', None, None), ('iframe', None, None), ('P', None, None)])
+        attrs = [[r.choice(['class', 'id', 'title', 'data-x']), random_value(r)] for _ in range(r.randint(0, 2))]
+        return ['tag', t, r.choice(['new_tag', 'Tag', 'TagB', 'UTag']), name, prefix, ns, attrs, r.choice([None, 'a', ' ']), r.choice(['append', 'insert0', 'before', 'after', 'replace'])]
+    if x < 0.84:
+        return ['soup', t, r.choice(['<b class="c1">a</b>', 'a', '<!--a--><p id="x"></p>']), r.choice(PARSERS), r.choice(['BS', 'USoup']), r.choice(['append', 'insert0', 'after'])]
+    if x < 0.88:
+        return ['detach', t]
+    return r.choice([['copy'], ['deepcopy'], ['smooth'], ['extract', t], ['unwrap', t], ['clear', t], ['string', t, r.choice(gen.TEXTS)], ['wrap', t, r.choice(gen.TAGS)],
+                     ['name', t, r.choice(gen.TAGS + ['iframe', 'DIV'])], ['delattr', t, r.choice(['class', 'id'])],
+                     ['attrs', t, r.choice(['dict', 'OrderedDict', 'AttributeDict']), [[r.choice(['class', 'id', 'title']), random_value(r)] for _ in range(r.randint(0, 3))]]])
+
+
+def programs_random(r, n):
+    """Random documents (through a random parser), random edits, random selectors and selectors aimed at the edited values."""
+    out = []
+    feats = {'nth': 1, 'extra': RANDOM_EXTRA}
+    for _ in range(n):
+        kind, top = gen.gen_doc(r, max_depth=3)
+        parser = r.choice(PARSERS)
+        if parser == 'xml':
+            markup = '<root>' + gen.to_markup(top, xml=True) + '</root>'
+        else:
+            markup = gen.to_markup(top) if r.random() < 0.5 else '<!DOCTYPE html><html><head></head><body>' + gen.to_markup(top) + '</body></html>'
+        eds = [random_edit(r) for _ in range(r.choice([0, 1, 1, 2, 3]))]
+        qs = [(r.choice(SEL_APIS + EL_APIS), gen.gen_list(r, feats=feats)) for _ in range(4)]
+        for ed in eds:
+            if ed[0] == 'attr':
+                qs += r.sample(aimed_queries(r, ed[2], css_view(ed[3]), '*'), 3)
+        out.append({'g': 'random', 'm': markup, 'p': parser, 'e': eds, 'q': qs, 'scope': r.choice([None, None, ['n', r.randint(0, 9)]]),
+                    'el': ['n', r.randint(0, 40)], 'limit': r.choice([0, 0, 0, 1, 2])})
+    return out
+
+
+def import_programs(r, full):
+    """Import sequences after which the programs are run: every sequence of length <= 2 of the eight entry points, every
+    further import form alone, and further forms combined with the other package in both orders."""
+    seqs = [s for n in (1, 2) for s in itertools.product(range(8), repeat=n)]
+    if not full:        # two soupsieve statements in a row: all of them are 'soupsieve first'; a sample is enough in the quick tier
+        sv2 = [s for s in seqs if len(s) == 2 and min(s) >= 3]
+        drop = set(r.sample(sv2, len(sv2) - 5))
+        seqs = [s for s in seqs if s not in drop]
+    progs = [[ENTRY[i] for i in s] for s in seqs]
+    progs += [[e] for e in EXTRA_BS4 + EXTRA_SV]
+    pairs = [[b, s] for b in EXTRA_BS4 for s in ['import soupsieve']] + [[s, b] for b in EXTRA_BS4 for s in ['import soupsieve']] \
+        + [[b, s] for s in EXTRA_SV for b in ['import bs4']] + [[s, b] for s in EXTRA_SV for b in ['import bs4']] \
+        + [[b, s] for b in EXTRA_BS4 for s in EXTRA_SV if (hash_pair(b, s) % 5 == 0)] + [[s, b] for b in EXTRA_BS4 for s in EXTRA_SV if (hash_pair(b, s) % 5 == 1)]
+    progs += pairs if full else r.sample(pairs, 16)
+    return progs
+
+
+def hash_pair(a, b):
+    return sum(map(ord, a)) * 31 + sum(map(ord, b))
+
+
+def py_value(v):
+    t, x = v
+    if t in ('s', 'i', 'f'):
+        return repr(x)
+    if t == 'b':
+        return repr(bytes.fromhex(x))
+    if t == 'ba':
+        return f'bytearray({bytes.fromhex(x)!r})'
+    if t == 'n':
+        return 'None'
+    if t == 'B':
+        return repr(bool(x))
+    if t == 'range':
+        return f'range({x})'
+    if t in CONTAINERS:
+        inner = ', '.join(map(py_value, x))
+        return {'list': f'[{inner}]', 'tuple': f'({inner}{"," if len(x) == 1 else ""})', 'avl': f'bs4.element.AttributeValueList([{inner}])',
+                'listsub': f'ListSubclass([{inner}])', 'deque': f'collections.deque([{inner}])'}[t]
+    return {'strsub': 'StrSubclass', 'obj': 'ObjectWithStr', 'cmav': 'bs4.element.CharsetMetaAttributeValue'}.get(t, ('bs4.element.' if not t.startswith('U') else 'UserSubclassOf_') + t) + f'({x!r})'
+
+
+def describe_program(case, through='Beautiful Soup'):
+    """The program as (approximate) Python text, for the reader of a replay file; the replay itself runs the stored data."""
+    def tgt(t):
+        return 'soup' if t is None else (f'soup.find(id={t[1]!r})' if t[0] == 'id' else f'soup.find_all(True)[{t[1]} % n_tags]')
+    lines = [f'soup = BeautifulSoup({case["m"]!r}, {case["p"]!r})']
+    for ed in case['e']:
+        op = ed[0]
+        if op == 'attr':
+            lines.append(f'{tgt(ed[1])}[{ed[2]!r}] = {py_value(ed[3])}')
+        elif op == 'attrs':
+            lines.append(f'{tgt(ed[1])}.attrs = {ed[2]}({{' + ', '.join(f'{k!r}: {py_value(v)}' for k, v in ed[3]) + '})')
+        elif op == 'nsattr':
+            lines.append(f'{tgt(ed[1])}[NamespacedAttribute({ed[2]!r}, {ed[3]!r}, {ed[4]!r})] = {py_value(ed[5])}')
+        elif op == 'str':
+            lines.append(f'{tgt(ed[1])}.{ed[4]}({py_value((ed[2], ed[3]))})    # append / insert(0, ..) / insert_before / insert_after / replace_with')
+        elif op == 'tag':
+            lines.append(f'{tgt(ed[1])}.{ed[8]}(<{ed[2]}>(name={ed[3]!r}, prefix={ed[4]!r}, namespace={ed[5]!r}, attrs={{' +
+                         ', '.join(f'{k!r}: {py_value(v)}' for k, v in ed[6]) + f'}}, text={ed[7]!r}))')
+        elif op == 'soup':
+            lines.append(f'{tgt(ed[1])}.{ed[5]}({"BeautifulSoupSubclass" if ed[4] == "USoup" else "BeautifulSoup"}({ed[2]!r}, {ed[3]!r}))')
+        elif op in ('copy', 'deepcopy'):
+            lines.append(f'soup = copy.{op}(soup)')
+        elif op == 'smooth':
+            lines.append('soup.smooth()')
+        elif op == 'detach':
+            lines.append(f'scope = el = {tgt(ed[1])}.extract()')
+        else:
+            lines.append(f'{tgt(ed[1])}.{op}({", ".join(map(repr, ed[2:]))})')
+    lines.append(f'scope = {tgt(case.get("scope"))}; el = {tgt(case.get("el")) if case.get("el") else "scope"}    # unless detached above')
+    kw = f'namespaces={case.get("ns")!r}, limit={case.get("limit", 0)}, flags={case.get("flags", 0)}'
+    for api, sel in case['q']:
+        on = 'el' if api in EL_APIS else 'scope'
+        if through == 'soupsieve':
+            lines.append(f'soupsieve.{"compile(..).select" if api in ("compiled", "css_compile") else api}({sel!r}, {on}, {kw})')
+        else:
+            lines.append({'select': f'{on}.select({sel!r}, {kw})', 'select_one': f'{on}.select_one({sel!r}, {kw})',
+                          'compiled': f'{on}.select(soupsieve.compile({sel!r}, ..), ..)', 'css_compile': f'{on}.css.compile({sel!r}, ..).select({on}, ..)'}
+                         .get(api, f'{on}.css.{api}({sel!r}, {kw})'))
+    return lines
+
+
+def run_work(imports, cases_path):
+    """Fresh interpreter: the import statements (warnings are errors), then the programs of `cases_path`."""
+    code = '; '.join(imports) + '\n' + WORK
+    env = dict(os.environ)
+    env.pop('PYTHONPATH', None)
+    if os.environ.get('SOUPVERIF_REPO'):
+        env['PYTHONPATH'] = os.environ['SOUPVERIF_REPO']
+    try:
+        p = subprocess.run(['/venv/bin/python', '-W', 'error', '-c', code, cases_path], stdout=subprocess.PIPE, stderr=subprocess.PIPE, cwd='/tmp',
+                           env=env, timeout=300)
+    except subprocess.TimeoutExpired:
+        return {'imports': imports, 'rc': 'timeout', 'extra': [], 'stderr': '', 'rows': None}
+    lines = [l for l in p.stdout.decode().splitlines() if l.strip()]
+    rows = next((json.loads(l[5:]) for l in lines if l.startswith('WORK ')), None)
+    return {'imports': imports, 'rc': p.returncode, 'extra': [l for l in lines if not l.startswith('WORK ')][:5], 'stderr': p.stderr.decode()[-600:], 'rows': rows}
+
+
+def compare_work(cases, runs):
+    """Verdicts over the runs of one program list: [(kind, detail)] with the program cut down to the one differing query."""
+    ref = next((x for x in runs if x['imports'] == ['import soupsieve'] and x['rows'] is not None), None) or \
+        next((x for x in runs if x['rows'] is not None), None)
+    bad = []
+    seen = set()
+    for x in runs:
+        if x['rc'] != 0 or x['extra'] or x['stderr'].strip() or x['rows'] is None or len(x['rows']) != len(cases):
+            bad.append(('program-run', {'what': 'the programs run after this import sequence fail, or something is printed', 'imports': x['imports'], 'rc': x['rc'],
+                                        'stdout_extra': x['extra'], 'stderr': x['stderr']}))
+            continue
+        for ci, (case, row, rrow) in enumerate(zip(cases, x['rows'], ref['rows'])):
+            for pi, how in enumerate(('Beautiful Soup', 'soupsieve')):
+                got, want = row[pi], rrow[pi]
+                if got == want:
+                    continue
+                qi = next((i for i, (g, w) in enumerate(zip(got['a'], want['a'])) if g != w), None)
+                key = (ci, qi)
+                if key in seen:
+                    continue
+                seen.add(key)
+                one = dict(case, q=[case['q'][qi]] if qi is not None else case['q'])
+                bad.append(('order', {'what': 'the same program gives a different answer depending on what was imported first', 'program': one,
+                                      'program_as_python': describe_program(one, how), 'through': how,
+                                      'imports': x['imports'], 'answer': got['a'][qi] if qi is not None else got, 'reference_imports': ref['imports'],
+                                      'reference_answer': want['a'][qi] if qi is not None else want}))
+    if ref is not None:
+        for ci, (case, row) in enumerate(zip(cases, ref['rows'])):
+            if row[0] != row[1]:
+                qi = next((i for i, (g, w) in enumerate(zip(row[0]['a'], row[1]['a'])) if g != w), None)
+                one = dict(case, q=[case['q'][qi]] if qi is not None else case['q'])
+                bad.append(('paths', {'what': 'Beautiful Soup and soupsieve give different answers to the same program', 'program': one, 'program_as_python': describe_program(one), 'imports': ref['imports'],
+                                      'reference_imports': ref['imports'], 'through_bs4': row[0]['a'][qi] if qi is not None else row[0],
+                                      'through_soupsieve': row[1]['a'][qi] if qi is not None else row[1]}))
+    return ref, bad
+
+
+def work_check(chk):
+    full = chk.tier != 'quick'
+    r = random.Random(chk.seed * 16 + 5)
+    cases = programs_values(r, full) + programs_nodes(r, full) + programs_tags(r, full) + programs_random(r, 300 if full else 40)
+    progs = import_programs(r, full)
+    with tempfile.NamedTemporaryFile('w', suffix='.json', prefix='c16_programs_', delete=False) as f:
+        json.dump(cases, f)
+    try:
+        with ThreadPoolExecutor(max_workers=14) as ex:
+            runs = list(ex.map(lambda imp: run_work(imp, f.name), progs))
+    finally:
+        os.unlink(f.name)
+    ref, bad = compare_work(cases, runs)
+    groups = {}
+    answered = nonempty = raised = queries = 0
+    if ref is not None:
+        for case, row in zip(cases, ref['rows']):
+            groups[case['g']] = groups.get(case['g'], 0) + 1
+            for a in row[1]['a']:
+                queries += 1
+                raised += isinstance(a, str) and a.startswith('raised ')
+                nonempty += a not in ([], None, False) and not (isinstance(a, str) and a.startswith('raised '))
+    chk.coverage.update({'work_import_sequences': len(progs), 'work_programs': len(cases), 'work_programs_by_group': groups, 'work_queries': queries,
+                         'work_queries_matching_something': nonempty, 'work_queries_raising_in_every_order': raised,
+                         'work_comparisons': queries * 2 * len(progs), 'work_failures': len(bad)})
+    chk.samples.append({'imports': progs[9], 'program': dict(cases[2], q=cases[2]['q'][:2]), 'answers': ref['rows'][2][0]['a'][:2] if ref else None})
+    return bad, len(progs), queries
 
 
 def run(chk):
@@ -72,23 +854,61 @@ def run(chk):
             if model_ok != (r['rc'] == 0):
                 corr_bad.append({'imports': [ENTRY[i] for i in s], 'interpreter_rc': r['rc'], 'model': m})
     chk.samples = [{'imports': [ENTRY[i] for i in seqs[j]], 'result': results[j]['result']} for j in (0, 8, 40)]
+    work_bad, work_seqs, work_queries = work_check(chk)
     chk.coverage.update({'sequences': len(seqs), 'max_length': k, 'exhaustive': True, 'failures': len(bad), 'model_mismatches': len(corr_bad)})
     for i, b in enumerate(bad[:5]):
         chk.violation(f'imp{i}', {'what': 'import sequence fails, prints, or the two select paths disagree', **b}, concrete=True)
+    shown = {}
+    for kind, b in work_bad:
+        if shown.get(kind, 0) < 4:
+            shown[kind] = shown.get(kind, 0) + 1
+            chk.violation(f'work_{kind}{shown[kind] - 1}', {'kind': 'work', **b}, concrete=True)
     for i, b in enumerate(corr_bad[:3]):
         chk.violation(f'corr{i}', {'correspondence': 'fresh interpreter ≡ Lean import model', **b}, concrete=False)
-    if not proof_ok and not (bad or corr_bad):
+    if not proof_ok and not (bad or corr_bad or work_bad):
         chk.violation('proof', {'what': 'proof obligation no longer checks (regenerated import-time event lists); every import sequence '
                                         'tried succeeds in a fresh interpreter', 'theorem_or_correspondence': 'SoupVerif.Properties.C16',
                                 'detail': chk.notes.get('proof_broken')}, concrete=False)
-    return chk.finish(rule=RULE, evaluations=len(seqs), distinct=nontriv)
+    return chk.finish(rule=RULE, evaluations=len(seqs) + work_seqs * work_queries * 2, distinct=nontriv + work_queries)
 
 
 def replay(chk, path):
     data = json.load(open(path))
+    if data.get('kind') == 'work':
+        return replay_work(chk, path, data)
     r = run_seq(data['seq'])
     print(json.dumps(r))
     if r['rc'] != 0 or r['stdout_extra'] or r['stderr'].strip():
+        print(f'VIOLATION property={PID} replay={path}')
+        return 1
+    return 0
+
+
+def replay_work(chk, path, data):
+    """The stored program after the stored import sequence and after the reference one, each in a fresh interpreter."""
+    if 'program' not in data:            # the run after the imports failed as a whole: the import sequence is the input
+        with tempfile.NamedTemporaryFile('w', suffix='.json', prefix='c16_programs_', delete=False) as f:
+            f.write('[]')
+        try:
+            x = run_work(data['imports'], f.name)
+        finally:
+            os.unlink(f.name)
+        print(json.dumps({k: x[k] for k in ('imports', 'rc', 'extra', 'stderr')}))
+        if x['rc'] != 0 or x['extra'] or x['stderr'].strip():
+            print(f'VIOLATION property={PID} replay={path}')
+            return 1
+        return 0
+    cases = [data['program']]
+    with tempfile.NamedTemporaryFile('w', suffix='.json', prefix='c16_programs_', delete=False) as f:
+        json.dump(cases, f)
+    try:
+        runs = [run_work(imp, f.name) for imp in ([data['reference_imports']] + ([data['imports']] if data['imports'] != data['reference_imports'] else []))]
+    finally:
+        os.unlink(f.name)
+    for x in runs:
+        print(json.dumps({'imports': x['imports'], 'rc': x['rc'], 'stderr': x['stderr'], 'through_bs4': x['rows'] and x['rows'][0][0], 'through_soupsieve': x['rows'] and x['rows'][0][1]}))
+    _, bad = compare_work(cases, runs)
+    if bad:
         print(f'VIOLATION property={PID} replay={path}')
         return 1
     return 0
